@@ -201,4 +201,28 @@ void h_solve(void) {
     END();
 }
 
+// ---- O4: the constraint-building API: addIneq / addEq record exactly the inequalities they are given (nothing dropped, nothing added), in the
+//      normal form v1 <= v2 + c the two phases of solve() read; including relations of a variable with itself
+void h_api(void) {
+    CspSolver& cs = mkSolver(MAXV, 0);
+    int v1 = nondet_int(), v2 = nondet_int(), offs = nondet_int(); bool ge = nondet_bool(), eq = nondet_bool();
+    ASSUME(v1 >= 0 && v1 < MAXV && v2 >= 0 && v2 < MAXV && offs >= -70 && offs <= 70);
+    if (eq) cs.addEq(v1, v2, offs);                        // real
+    else cs.addIneq(v1, ge ? CspSolver::GE : CspSolver::LE, v2, offs);   // real
+    int n = (int)cs.constr.size();
+    verif_observe(n);
+    CHECK(n == (eq ? 2 : 1), "one record per inequality, two per equality");
+    // meaning of the records, checked on arbitrary values: all recorded v_a <= v_b + c hold  <=>  the stated relation holds
+    int x[MAXV]; for (int i = 0; i < MAXV; i++) { x[i] = nondet_int(); ASSUME(x[i] >= -16 && x[i] <= 47); }
+    bool rec = true;
+    for (int k = 0; k < MAXC; k++) if (k < n) {
+        const CspSolver::Constraint& c = conBox.c[k];
+        CHECK(c.v1 >= 0 && c.v1 < MAXV && c.v2 >= 0 && c.v2 < MAXV, "recorded variable numbers in range");
+        rec = rec && x[c.v1] <= x[c.v2] + c.c;
+    }
+    bool want = eq ? x[v1] == x[v2] + offs : ge ? x[v1] >= x[v2] + offs : x[v1] <= x[v2] + offs;
+    CHECK(rec == want, "the recorded inequalities hold for an assignment exactly when the stated relation does");
+    END();
+}
+
 } // extern "C"
